@@ -184,6 +184,12 @@ def link_argv(threads, fork):
     return ([] if fork else ["--no-fork"]) + [f"--threads={threads}"] + LINK_ARGS
 
 
+def link_env(threads):
+    """`--threads=1` alone still starts a 16-thread rayon pool; the 1-thread configuration of this
+    check is a truly single-threaded link (every phase point is then on the main thread)."""
+    return {"RAYON_NUM_THREADS": "1"} if threads == 1 else {}
+
+
 def worker_dir(base):
     return os.path.join(base, f"w{os.getpid()}")
 
@@ -234,7 +240,7 @@ def run_one(spec):
             res["status"] = f"machinery: {r} not pristine"
             return res
     env = dict(os.environ, WILD_VERIF_AT=spec["point"], WILD_VERIF_DO="pause:" + pd,
-               WILD_VERIF_PHASELOG=log)
+               WILD_VERIF_PHASELOG=log, **link_env(spec["threads"]))
     p = subprocess.Popen([spec.get("wild") or vlib.WILD, *link_argv(spec["threads"], spec["fork"])],
                          cwd=wd, env=env, stdin=subprocess.DEVNULL, stdout=subprocess.DEVNULL,
                          stderr=subprocess.PIPE)
@@ -336,7 +342,7 @@ def probe(base, t0, threads, fork, n=3):
         except OSError:
             pass
         rc, _, err = vlib.run([vlib.WILD, *link_argv(threads, fork)], cwd=wd,
-                              env={"WILD_VERIF_PHASELOG": log})
+                              env={"WILD_VERIF_PHASELOG": log, **link_env(threads)})
         if rc != 0:
             return None, f"baseline link failed rc={rc}: {err.decode()[-300:]}"
         # The forked child may still be shutting down; its later points are not needed.
@@ -365,6 +371,7 @@ def manual(spec):
     rel = KIND_PATH[spec["kind"]]
     return (f"build the inputs listed under 'files' in an empty directory (all with an mtime one "
             f"hour in the past); run `WILD_VERIF_AT='{spec['point']}' WILD_VERIF_DO=pause:$PWD/p "
+            f"{'RAYON_NUM_THREADS=1 ' if spec['threads'] == 1 else ''}"
             f"wild {' '.join(link_argv(spec['threads'], spec['fork']))}` with ./p an empty "
             f"directory; when ./p/reached appears apply '{spec['mod']}' to {rel}; "
             f"`touch p/go`; wild must exit non-zero")
@@ -404,7 +411,8 @@ def main():
     if chk.args.replay:
         replay(chk, chk.args.replay)
     t0 = int(time.time()) - 3600
-    cap_s = 840 if chk.thorough else 50
+    # Wall cap for the whole check (setup included), enforced inside the engine.
+    cap_s = 840 if chk.thorough else 46
     with vlib.scratch("c20") as base:
         build_template(os.path.join(base, "tpl"), t0)
         configs = []          # (threads, fork, points)
@@ -454,7 +462,7 @@ def main():
         if chk.seed:
             import random
             random.Random(chk.seed).shuffle(specs)
-        deadline = time.time() + cap_s
+        deadline = chk.t0 + cap_s
         for i, s in enumerate(specs):
             s.update(i=i, base=base, t0=t0, deadline=deadline)
         results = [r for r in vlib.pmap_unordered(run_one, specs, chunksize=4)]
@@ -517,6 +525,7 @@ def main():
         chk.violation(key, what, {"spec": {k: s[k] for k in
                                            ("kind", "mod", "point", "threads", "fork")},
                                   "argv": link_argv(s["threads"], s["fork"]),
+                                  "env": link_env(s["threads"]),
                                   "files": FILES_DOC, "manual": manual(s)})
     if counts.get("point_not_reached", 0) > len(results) // 50:
         chk.machinery(f"{counts['point_not_reached']} of {len(results)} pause points not reached")
@@ -551,6 +560,8 @@ def main():
         "a file that appears in /proc/<pid>/maps of the paused wild has had its mtime recorded "
         "(FileData::open reads the mtime before mmap)",
         "tmpfs (/dev/shm) timestamps; all inputs carry an mtime one hour in the past",
+        "threads=1 means --threads=1 with RAYON_NUM_THREADS=1 (a truly single-threaded link); "
+        "threads=4 means --threads=4",
         "version script and dynamic list are counted but not judged (the statement lists object, "
         "archive, thin-archive member, linker script)",
     ]
